@@ -27,6 +27,26 @@ fn lowindex_event(name: &str, ng: usize, rels: &Vec<FreeWord>, k: usize, kc: usi
         Ok(ts) => { e["tables"] = json!(ts); }
         Err(m) => { e["panic"] = json!(m); }
     }
+    // the same group presented with renamed / inverted generators: the number of tables per index belongs to the group
+    // (seeded by the presentation itself so that the event is reproducible)
+    use std::hash::{Hash, Hasher};
+    let mut h = std::collections::hash_map::DefaultHasher::new();
+    format!("{:?}{}", e["rels"], k).hash(&mut h);
+    let mut r = StdRng::seed_from_u64(h.finish() ^ seed());
+    let mut vs = vec![];
+    for _ in 0..2 {
+        let mut perm: Vec<usize> = (1..=ng).collect();
+        perm.shuffle(&mut r);
+        let sign: Vec<isize> = (0..ng).map(|_| if r.gen_bool(0.5) { 1 } else { -1 }).collect();
+        let rn: Vec<FreeWord> = rels.iter().map(|w| FreeWord::new(letters(w).iter().map(|&x| { let g = x.unsigned_abs() as usize; (perm[g - 1] as isize) * sign[g - 1] * x.signum() }))).collect();
+        let mut w = json!({"perm": perm, "sign": sign, "rels": rn.iter().map(letters).collect::<Vec<_>>()});
+        match catch(|| { let mut c = vec![0usize; k]; for t in coset_tables(ng, &rn, k) { c[t.len() - 1] += 1; } c }) {
+            Ok(c) => { w["counts"] = json!(c); }
+            Err(m) => { w["panic"] = json!(m); }
+        }
+        vs.push(w);
+    }
+    e["variants"] = json!(vs);
     e
 }
 
@@ -54,6 +74,15 @@ pub fn drive_c12(args: &[String]) {
         if ng > 4 || fg.relators.iter().any(|w| w.len() > 30) { continue; }
         let kc = kcheck(ng, thorough).min(if ng >= 3 { 3 } else { 4 });
         sink.emit(lowindex_event(&format!("orbifold group of {}", s), ng, &fg.relators, kc, kc));
+    }
+    // triangle groups <x, y | x^p, y^q, (xy)^r> for every ORDERED triple of exponents 2..6, enumerated to index 6 (class counts
+    // confirmed to index 4, structural clauses and renamed presentations to index 6): deductions that close relator
+    // cycles inconsistently depend on the order of the generators
+    if arg_usize(args, "--triangles", 1) > 0 {
+        for p in 2..=6usize { for q in 2..=6usize { for r in 2..=6usize {
+            let rels = vec![FreeWord::new(vec![1isize; p]), FreeWord::new(vec![2isize; q]), FreeWord::new([1isize, 2].repeat(r))];
+            sink.emit(lowindex_event(&format!("triangle({p},{q},{r})"), 2, &rels, 6, 4));
+        } } }
     }
     // deep runs: orbifold groups with >= 3 generators of larger 2-D symbols enumerated to index 6 (thorough 7): every table
     // must still be a valid action (structural clauses; the class count is confirmed only up to kcheck)
